@@ -21,7 +21,7 @@ sys.path.insert(0, os.path.dirname(os.path.abspath(__file__)))
 import lib  # noqa: E402
 
 
-class ImplHang(Exception):
+class ImplHang(BaseException):     # not an Exception: a broad `except Exception` inside the library must not swallow it
     """the CPU budget of the whole check ran out"""
 
 
@@ -103,6 +103,9 @@ def main() -> int:
 
         if args.replay:
             payload = json.load(open(args.replay))
+            if isinstance(payload.get("case"), dict) and payload["case"].get("op") == "tables":
+                import dec_common
+                return dec_common.replay_tables(payload["case"])
             return mod.replay(payload, res)
 
         # address-space limit for the correspondence phase (set after the Lean builds, which map large files): a loop in the
@@ -119,6 +122,9 @@ def main() -> int:
 
         proof_broken = bool(aud["failures"])
         tie_broken = bool(res.tie_breaks)
+        if "dec_common" in sys.modules:       # decoding must not change module-level tables (constants of the model)
+            for case, what in sys.modules["dec_common"].TABLE_EVENTS[:20]:
+                res.prop_failure(case, what, "module_tables")
         edited = lib.changed_fingerprints(pid)
         if edited:
             res.notes.append("the literals of hand-modelled function(s) changed (" + ", ".join(edited) + "): widened search")
@@ -168,7 +174,7 @@ def main() -> int:
     except lib.ToolFailure as ex:
         print(f"TOOL-FAILURE property={pid}: {ex}")
         return 2
-    except Exception as ex:
+    except (Exception, ImplHang) as ex:
         traceback.print_exc()
         # An exception that was RAISED INSIDE the library (innermost frame under REPO/han) at a place where the harness,
         # written against the model, expects none, is a disagreement between implementation and model: the
